@@ -33,7 +33,7 @@ IGNORED = {
     "len", "sorted", "list", "max", "min", "sum", "isinstance", "itertools.chain.from_iterable", "log", "np.full", "np.zeros", "str", "int", "frozenset", "set",
     "collections.defaultdict", "new:TreeNode", "new:Tree", "rustworkx.PyDiGraph", "new:PostOrderNodeUpdater", "new:PreOrderNodeRelabeller",
     "new:GraphToCladesVisitor", "new:GraphToNewickVisitor", "np.array_equal", "map", "print", "dict", ".__new__", "compute_log_S",
-    "rustworkx.dfs_search", ".format",
+    "rustworkx.dfs_search", ".format", "reversed",
 } | {"." + r for r in REFRESH}
 
 # methods that only compute a value
@@ -43,18 +43,20 @@ QUERY_METHODS = {
     "get_data", "get_data_len", "get_subtree_data_len", "multiplicity@getter", "node_last_added_to@getter", "root_node_name@getter",
     "outlier_node_name@getter", "to_newick_string", "get_clades", "to_dict", "_clades",
 }
-SKIP = {"phyclone.tree.tree.Tree.update", "phyclone.tree.tree.Tree._update_path_to_root", "phyclone.tree.tree.Tree._update_node",
-        "phyclone.tree.tree_node.TreeNode.update_node_from_child_r_vals", "phyclone.tree.tree.Tree.copy", "phyclone.tree.tree_node.TreeNode.copy"}
+SKIP = {"phyclone.tree.tree_node.TreeNode.copy"}
+# the refresh machinery itself: compared with its own callees visible
+REFRESH_IMPL = {"update", "_update_path_to_root", "_update_node", "update_node_from_child_r_vals"}
+RECURSION = {"compute_log_S", "_sub_compute_S", "compute_log_D", "_convolve_two_children", "_np_conv_dims", "fft_convolve_two_children"}
 
 
-def _effects(ex):
+def _effects(ex, ignored=IGNORED, keep_log_r=False):
     out = []
     for e in ex.events:
-        if e.name in IGNORED or e.name.startswith(".get_"):
+        if e.name in ignored or e.name.startswith(".get_"):
             continue
         if e.name == "store_attr" and isinstance(e.kwargs.get("attr"), str) and e.kwargs["attr"].startswith("__"):
             continue
-        if e.name == "store_attr" and e.kwargs.get("attr") == "log_r":
+        if e.name == "store_attr" and e.kwargs.get("attr") == "log_r" and not keep_log_r:
             continue  # a cache: what it must hold after an edit is decided by C06.M2 / M3 and the refresh rules
         out.append(e)
     return out
@@ -68,27 +70,35 @@ def rule_TS(ctx, owners=None, rule="TS", only=None):
         owner, name = q.rsplit(".", 1)
         if owners is not None and not any(owner.endswith(o) for o in owners):
             continue
-        if q in SKIP or (only is not None and name not in only) or "visitors." in q:
-            continue
+        if q in SKIP or (only is not None and name not in only) or "visitors." in q or name in RECURSION:
+            continue  # the recursion's numerics have their own shape rules (C02.N1-N4), which accept equivalent floors / fold orders
         fi = prog.functions.get(q)
         short = q.split("phyclone.")[-1]
         if fi is None:
             ctx.fail(rule, short + " exists", "phyclone", "the reference method %s no longer exists under that name" % q, construct=q, stmt="method present")
             continue
-        opts = dict(opaque_self_methods=REFRESH, no_inline=["compute_log_S"], copy_is_identity=True)
+        opts = dict(opaque_self_methods=REFRESH, no_inline=["compute_log_S"], copy_is_identity=True, resolve_new_objects=True)
         if name in ("_clades", "get_clades") and owner.endswith("tree.utils"):
             opts["no_inline"] = ["compute_log_S", "_clades"]
+        ignored = IGNORED
+        if name in REFRESH_IMPL:
+            opts["opaque_self_methods"] = REFRESH - {name} if name != "_update_path_to_root" else REFRESH
+            ignored = IGNORED - {"." + r for r in REFRESH} - {"compute_log_S", "rustworkx.dfs_search"}
+        if name in RECURSION:
+            opts["no_inline"] = sorted(RECURSION - {name})
+            ignored = IGNORED - {"compute_log_S"}
         try:
             ex = extract(prog, fi, **opts)
             sp = spec(prog, src, fi, **opts)
         except Unsupported as e:
             ctx.note("%s: not interpretable by TermFlow (%s) - covered by the pairing rules only" % (short, str(e)[:100]))
             continue
-        if name in QUERY_METHODS:
+        keep = name not in ("add_data_point", "add_data_point_list", "remove_data_point")
+        same_effects(ctx, rule, short + ": effects", fi, _effects(ex, ignored, keep), _effects(sp, ignored, keep), "primitive effects")
+        if name in QUERY_METHODS or name in RECURSION:
             same(ctx, rule, short + ": value", fi, ex.result, sp.result, "returned value", stmt="result")
         else:
-            same_effects(ctx, rule, short + ": effects", fi, _effects(ex), _effects(sp), "primitive effects")
-            if sp.result is not None and not (isinstance(sp.result, Poly) and "«" in show(sp.result)):
+            if sp.result is not None and not (isinstance(sp.result, Poly) and "«" in show(sp.result)) and name not in ("copy", "__copy__", "get_subtree"):
                 same(ctx, rule, short + ": value", fi, ex.result, sp.result, "returned value", stmt="result")
         done += 1
         ctx.analysed(fi)
